@@ -13,7 +13,7 @@ import sys
 
 import numpy as np
 
-from checks.common import canon_value, hash_tag, quiet_call
+from checks.common import canon_value, hash_tag, quiet_call, to_sparse
 from qmc import gen as G
 from qmc import oracle as O
 from qmc.loader import load
@@ -329,6 +329,36 @@ def run_case(case, seed):
                             fails.append(fail("estimate<=spectral_norm", f"budget {budget}: estimate {lamv!r}, ||A||_2 = {s1!r}", **t2))
                 if len(outs) == 2 and outs[False] != outs[True]:
                     fails.append(fail("verbose_changes_result", f"power_iteration(max_iterations={budget}, return_eigenvalue={ret}) on {st} {n}x{n}: verbose=True returns a different value", grp="opts", st=st, n=n, budget=budget))
+        # the start vector is drawn from numpy's global generator: two global seeds give two different one-step iterates (n >= 2)
+        if n >= 2 and st in ("herm", "nonherm"):
+            vs = []
+            for gs in (3, 4, 5):
+                np.random.seed(gs)
+                ok, r = quiet_call(u.power_iteration, Aq, max_iterations=1, tol=1e-10)
+                evals += 1
+                if ok:
+                    vs.append(G.from_quat(np.asarray(r)).tobytes())
+            if len(vs) == 3 and len(set(vs)) < 3:
+                fails.append(fail("start_ignores_global_seed", f"power_iteration({st} {n}x{n}, max_iterations=1) returns the same vector for different np.random.seed values", grp="opts", st=st, n=n))
+        # sparse container: same clauses on the returned pair (unit vector, estimate = |v^H A v| / v^H v <= ||A||_2)
+        if st != "zero":
+            As = to_sparse(lib, A)
+            for budget in (1, 7, 100):
+                np.random.seed(11)
+                ok, r = quiet_call(u.power_iteration, As, max_iterations=budget, tol=1e-10, return_eigenvalue=True)
+                evals += 1
+                t2 = {"grp": "opts", "st": st, "n": n, "budget": budget, "container": "sparse"}
+                if not ok:
+                    fails.append(fail("raised", f"power_iteration(SparseQuaternionMatrix, budget {budget}): {type(r).__name__}: {r}", **t2))
+                    continue
+                vq, lamv = r
+                vf = G.from_quat(np.asarray(vq)).reshape(n, 1, 4)
+                if not O.is_finite(vf) or abs(O.fro(vf) - 1.0) > 1e-12:
+                    fails.append(fail("unit_vector", f"sparse input, budget {budget}", **t2))
+                    continue
+                ray = O.qabs(O.qmatmul(O.qH(vf), O.qmatmul(A, vf))[0, 0]) / (O.fro(vf) ** 2)
+                if abs(float(lamv) - ray) > 1e-9 * max(1.0, s1):
+                    fails.append(fail("estimate=rayleigh_quotient", f"sparse input, budget {budget}: estimate {float(lamv)!r}, |v^H A v| / v^H v = {ray!r}", **t2))
         return {"key": case["key"], "fails": fails, "nontrivial": bool(A.any()), "digest": digest(A, "opts"), "evals": evals, "transitions": evals, "traces": evals - len(fails), "path": f"opts:{st}", "obs": len(fails)}
     if grp == "arb":
         n = case["n"]
